@@ -478,6 +478,32 @@ func genCase(r *hc.RNG, thorough bool) *vcase {
 		plain = append(append([]byte(nil), file...), r.Bytes(8192)...)
 		w.honestLimit = wsz
 	}
+	if r.Chance(7) && v.mode == "A" && v.tamper != "tail-garbage" {
+		// targeted: part size smaller than the hash window, one answer inside a window cut short
+		v.tamper = "split-truncate"
+		wsz = hc.Pick(r, 8192, 16384)
+		nwin := r.Range(1, 3)
+		size = nwin*wsz - r.Intn(100)
+		file = r.Bytes(size)
+		wins, wsizes = nil, nil
+		for off := 0; off < size; off += wsz {
+			end := off + wsz
+			if end > size {
+				end = size
+			}
+			h := sha256.Sum256(file[off:end])
+			wins = append(wins, window{off, wsz, h[:]})
+			wsizes = append(wsizes, wsz)
+		}
+		v.wsizes = wsizes
+		v.ps = 4096
+		w.file, w.wins = file, wins
+		plain = append([]byte(nil), file...)
+		w.honestLimit = 0
+		// a part that neither starts a window nor is the last part of the file
+		w.quirkAt = int64(wsz*r.Intn(nwin) + 4096*r.Range(1, wsz/4096-2))
+		w.quirkBy = -hc.Pick(r, 1, 16, 100, 4095)
+	}
 	if v.mode == "C" {
 		w.image = plain
 		w.honest = file
@@ -605,7 +631,7 @@ func run(c *hc.Ctx) error {
 	}
 
 	// ---- 3. whole downloads against honest and adversarial data servers
-	n := c.N(160, 4000)
+	n := c.N(160, 1500)
 	cases := make([]*vcase, n)
 	for i := range cases {
 		cases[i] = genCase(r, c.Thorough())
